@@ -423,9 +423,12 @@ public:
 	{
 		if (length() != b.length())
 			return false;
-		Enumerator e1(this->all()), e2(b.all());
-		for (; e1; ++e1, ++e2)
-			if (~e1 != ~e2 || *e1 != *e2) return false;
+		Enumerator e1(this->all());
+		for (; e1; ++e1)
+		{
+			const T* v = b.find(~e1);
+			if (!v || *v != *e1) return false;
+		}
 		return true;
 	}
 
